@@ -1138,6 +1138,17 @@ func f19strings(e *Env) error {
 	if ferr != nil {
 		return ferr
 	}
+	// every string of length ≤ 4 over white space and control characters (what trim must and must not remove)
+	allStrings([]string{" ", "\t", "\n", "\v", "\f", "\r", "\x00", "\u0085", "\u00a0", "\u2028", "\x01", "x"}, e.N(3, 4), func(s string) bool {
+		if err := f19stringCase(e, b, s, "string-whitespace-exhaustive"); err != nil {
+			ferr = err
+			return false
+		}
+		return true
+	})
+	if ferr != nil {
+		return ferr
+	}
 	r.Note(fmt.Sprintf("string filters: exhaustive over %d letters to length %d", len(f19letters), depth))
 	n := e.N(6000, 150000)
 	for i := 0; i < n; i++ {
